@@ -131,12 +131,13 @@ struct Tok { std::vector<std::string> t; size_t p = 0;
 static std::vector<int> toInts(const std::vector<std::string> &v) { std::vector<int> r; for (auto &s : v) r.push_back(atoi(s.c_str())); return r; }
 static std::vector<double> toDbls(const std::vector<std::string> &v) { std::vector<double> r; for (auto &s : v) r.push_back(strtod(s.c_str(), nullptr)); return r; }
 
-struct Slot { TasmanianSparseGrid g; std::vector<double> cand; };
+struct Slot { TasmanianSparseGrid g; std::vector<double> cand; std::vector<double> probe; };
 static std::map<std::string, std::unique_ptr<Slot>> slots;
 static std::map<std::string, std::string> streams; // named in-memory streams
 static std::string workdir = ".";
 static Slot &S(const std::string &n) { auto &p = slots[n]; if (!p) p.reset(new Slot()); return *p; }
 
+static std::vector<double> xlist(Slot &s, std::map<std::string, std::vector<std::string>> &m) { auto &v = m["x:"]; if (!v.empty() && v[0] == "@") return s.probe; return toDbls(v); }
 static uint64_t dig = 0;
 static void dmix(const void *p, size_t n) { const unsigned char *c = (const unsigned char *) p; for (size_t i = 0; i < n; i++) dig = mix(dig ^ c[i]) + 0x9e3779b97f4a7c15ULL; }
 
@@ -240,12 +241,12 @@ static void run_line(const std::string &line) {
     else if (cmd == "savebytes") { // save the binary/ascii image of the grid into a file for external decoding
         Slot &s = S(k.next()); bool bin = (k.next() == "bin"); std::string name = k.next(); std::ofstream f(workdir + "/" + name, std::ios::binary); s.g.write(f, bin); }
     else if (cmd == "dump") { Slot &s = S(k.next()); while (k.more()) dump(s, k.next()); }
-    else if (cmd == "iw") { Slot &s = S(k.next()); auto m = k.keyed(); pd("iw", s.g.getInterpolationWeights(toDbls(m["x:"]))); }
-    else if (cmd == "dw") { Slot &s = S(k.next()); auto m = k.keyed(); pd("dw", s.g.getDifferentiationWeights(toDbls(m["x:"]))); }
-    else if (cmd == "eval") { Slot &s = S(k.next()); auto m = k.keyed(); std::vector<double> x = toDbls(m["x:"]); int d = s.g.getNumDimensions(), o = s.g.getNumOutputs();
+    else if (cmd == "iw") { Slot &s = S(k.next()); auto m = k.keyed(); pd("iw", s.g.getInterpolationWeights(xlist(s, m))); }
+    else if (cmd == "dw") { Slot &s = S(k.next()); auto m = k.keyed(); pd("dw", s.g.getDifferentiationWeights(xlist(s, m))); }
+    else if (cmd == "eval") { Slot &s = S(k.next()); auto m = k.keyed(); std::vector<double> x = xlist(s, m); int d = s.g.getNumDimensions(), o = s.g.getNumOutputs();
         size_t n = d ? x.size() / d : 0; std::vector<double> all; for (size_t i = 0; i < n; i++) { std::vector<double> xi(x.begin() + i * d, x.begin() + (i + 1) * d), y; s.g.evaluate(xi, y); all.insert(all.end(), y.begin(), y.end()); }
         (void) o; pd("eval", all); }
-    else if (cmd == "evalb") { Slot &s = S(k.next()); auto m = k.keyed(); std::vector<double> x = toDbls(m["x:"]), y; s.g.evaluateBatch(x, y); pd("evalb", y); }
+    else if (cmd == "evalb") { Slot &s = S(k.next()); auto m = k.keyed(); std::vector<double> x = xlist(s, m), y; s.g.evaluateBatch(x, y); pd("evalb", y); }
     else if (cmd == "evalf") { Slot &s = S(k.next()); auto m = k.keyed(); std::vector<double> x = toDbls(m["x:"]); int d = s.g.getNumDimensions();
         size_t n = d ? x.size() / d : 0; std::vector<double> all; for (size_t i = 0; i < n; i++) { std::vector<double> xi(x.begin() + i * d, x.begin() + (i + 1) * d), y; s.g.evaluateFast(xi, y); all.insert(all.end(), y.begin(), y.end()); }
         pd("evalf", all); }
@@ -255,11 +256,40 @@ static void run_line(const std::string &line) {
         for (size_t i = 0; i < n; i++) { std::vector<double> xi(x.begin() + i * d, x.begin() + (i + 1) * d), y, yf; g.evaluate(xi, y); all.insert(all.end(), y.begin(), y.end()); g.evaluateFast(xi, yf); allf.insert(allf.end(), yf.begin(), yf.end()); }
         pd("eval", all); pd("evalf", allf); }
     else if (cmd == "integ") { Slot &s = S(k.next()); std::vector<double> q; s.g.integrate(q); pd("integ", q); }
-    else if (cmd == "diff") { Slot &s = S(k.next()); auto m = k.keyed(); std::vector<double> x = toDbls(m["x:"]), j; s.g.differentiate(x, j); pd("diff", j); }
-    else if (cmd == "hbasis") { Slot &s = S(k.next()); auto m = k.keyed(); std::vector<double> x = toDbls(m["x:"]), y; s.g.evaluateHierarchicalFunctions(x, y); pd("hbasis", y); }
-    else if (cmd == "hsparse") { Slot &s = S(k.next()); auto m = k.keyed(); std::vector<double> x = toDbls(m["x:"]), v; std::vector<int> pn, ix; s.g.evaluateSparseHierarchicalFunctions(x, pn, ix, v); pi("hsp_pntr", pn); pi("hsp_indx", ix); pd("hsp_vals", v); }
+    else if (cmd == "diff") { Slot &s = S(k.next()); auto m = k.keyed(); std::vector<double> x = xlist(s, m), j; s.g.differentiate(x, j); pd("diff", j); }
+    else if (cmd == "hbasis") { Slot &s = S(k.next()); auto m = k.keyed(); std::vector<double> x = xlist(s, m), y; s.g.evaluateHierarchicalFunctions(x, y); pd("hbasis", y); }
+    else if (cmd == "hsparse") { Slot &s = S(k.next()); auto m = k.keyed(); std::vector<double> x = xlist(s, m), v; std::vector<int> pn, ix; s.g.evaluateSparseHierarchicalFunctions(x, pn, ix, v); pi("hsp_pntr", pn); pi("hsp_indx", ix); pd("hsp_vals", v); }
     else if (cmd == "inside") { Slot &s = S(k.next()); auto m = k.keyed(); std::vector<double> x = toDbls(m["x:"]); int d = s.g.getNumDimensions(); auto ins = s.g.getDomainInside();
         std::vector<int> r; for (size_t i = 0; d && i + d <= x.size(); i += d) r.push_back(ins(std::vector<double>(x.begin() + i, x.begin() + i + d)) ? 1 : 0); pi("inside", r); }
+    else if (cmd == "probe") { // probe <s> <nrandom> <seed>: evaluation points = random points of the domain, some nodes, and points exactly at node +- support
+        Slot &s = S(k.next()); int nr = k.ni(); uint64_t seed = (uint64_t) k.ni(); TasmanianSparseGrid &g = s.g; int d = g.getNumDimensions();
+        std::vector<double> pts = g.getPoints(), sup = g.getHierarchicalSupport(); size_t n = d ? pts.size() / d : 0; s.probe.clear();
+        if (n > 0) {
+            std::vector<double> lo(d, 1e300), hi(d, -1e300);
+            for (size_t i = 0; i < n; i++) for (int j = 0; j < d; j++) { lo[j] = std::min(lo[j], pts[i * d + j]); hi[j] = std::max(hi[j], pts[i * d + j]); }
+            if (g.isFourier()) { std::vector<double> a(d, 0.0), b(d, 1.0); if (g.isSetDomainTransfrom()) g.getDomainTransform(a, b);
+                for (int j = 0; j < d; j++) { lo[j] = a[j]; hi[j] = b[j]; } }
+            for (int j = 0; j < d; j++) if (hi[j] <= lo[j]) { lo[j] -= 0.5; hi[j] += 0.5; }
+            auto rnd = [&]() -> double { seed = mix(seed + 0x9e3779b97f4a7c15ULL); return (double) (seed >> 11) / 9007199254740992.0; };
+            for (int i = 0; i < nr; i++) for (int j = 0; j < d; j++) s.probe.push_back(lo[j] + (hi[j] - lo[j]) * rnd());
+            for (int i = 0; i < 4 && n > 0; i++) { size_t p = (size_t) (rnd() * n) % n; for (int j = 0; j < d; j++) s.probe.push_back(pts[p * d + j]); }
+            if (sup.size() == pts.size()) for (int i = 0; i < 6; i++) { size_t p = (size_t) (rnd() * n) % n; int dir = (int) (rnd() * d) % d; double sg = (rnd() < 0.5) ? -1.0 : 1.0;
+                std::vector<double> x(pts.begin() + p * d, pts.begin() + (p + 1) * d); x[dir] += sg * sup[p * d + dir];
+                if (x[dir] < lo[dir] || x[dir] > hi[dir]) x[dir] = pts[p * d + dir] - sg * sup[p * d + dir];
+                if (x[dir] < lo[dir] || x[dir] > hi[dir]) continue; s.probe.insert(s.probe.end(), x.begin(), x.end()); }
+        }
+        pd("probe", s.probe); }
+    else if (cmd == "weights") { // interpolation and differentiation weights at every probe point
+        Slot &s = S(k.next()); int d = s.g.getNumDimensions(); std::vector<double> all, alld;
+        for (size_t i = 0; d && i + d <= s.probe.size(); i += d) { std::vector<double> x(s.probe.begin() + i, s.probe.begin() + i + d);
+            auto w = s.g.getInterpolationWeights(x); all.insert(all.end(), w.begin(), w.end()); }
+        pd("iwall", all);
+        for (size_t i = 0; d && i + d <= s.probe.size(); i += d) { std::vector<double> x(s.probe.begin() + i, s.probe.begin() + i + d);
+            auto w = s.g.getDifferentiationWeights(x); alld.insert(alld.end(), w.begin(), w.end()); }
+        pd("dwall", alld); }
+    else if (cmd == "diffall") { Slot &s = S(k.next()); int d = s.g.getNumDimensions(); std::vector<double> all;
+        for (size_t i = 0; d && i + d <= s.probe.size(); i += d) { std::vector<double> x(s.probe.begin() + i, s.probe.begin() + i + d), j; s.g.differentiate(x, j); all.insert(all.end(), j.begin(), j.end()); }
+        pd("diffall", all); }
     else if (cmd == "estaniso") { Slot &s = S(k.next()); TypeDepth ty = DEPTHS.at(k.next()); int out = k.ni(); pi("estaniso", s.g.estimateAnisotropicCoefficients(ty, out)); }
     else throw std::runtime_error("driver: unknown command " + cmd);
 }
